@@ -20,16 +20,20 @@
 
   What is NOT true of the code and therefore not claimed (`Tk.ToTkRefines`, `Tk.ToTkTotal` are the
   full statements, kept as `Prop`s; their negations are theorems below): outside the fragment the
-  export is wrong.  Every excluding condition has a concrete counter-witness here, and each is a
-  known finding on /repo reproduced by harness/props/c13.py:
-    measure_left_of_bit (F11), bits_left_of_bit, discard_bit, override_destructive,
-    bit_swap_moves_ps, stale_bits (export raises), override_after_pp (specification undefined:
-    the wire to overwrite is not a register).
+  export is wrong.  Every remaining excluding condition has a concrete counter-witness here, and
+  each is a known finding on /repo reproduced by harness/props/c13.py:
+    bits_left_of_bit (F23), discard_bit (F24), stale_bits (F25: the export raises, or silently
+    reads the wrong register), override_after_pp (F27: specification undefined, the wire to
+    overwrite is not a register).
+  The conditions measure_left_of_bit (F11), override_destructive (F26) and bit_swap_moves_ps (F28)
+  are gone: the model transcribes the repaired code and those circuits are inside the fragment
+  (examples at the end); their as-was counter-witnesses were dropped with the as-was model.
   The conditions are sufficient, not necessary: e.g. Bits(0) next to another never-written
   register is excluded although exchanging two blank registers is harmless.
 
   `from_tk.make_units_adjacent` is modelled (Model/TkFrom.lean) and compared with the code on every
-  run, but only a bounded statement is proved about it (`from_tk_adjacent_upto6`, a decided table).
+  run (after fix F30), but only a bounded statement is proved about it (`from_tk_adjacent_upto6`, a
+  decided table).
   Not modelled: pytket's own renaming and op semantics, the rest of `from_tk`, the backend path —
   these rest on the oracle of the check.
 -/
@@ -63,11 +67,6 @@ theorem to_tk_refines_fails : ¬ Tk.ToTkRefines := Tk.not_toTkRefines
 /-- … and so is totality: the export raises on a circuit whose specification is defined. -/
 theorem to_tk_total_fails : ¬ Tk.ToTkTotal := Tk.not_toTkTotal
 
-/-- F11: `Ket(1, 0) >> Id(1) @ Measure() >> Measure() @ Id(bit)`. -/
-theorem measure_left_of_bit_not_refined :
-    wF11.firstViolation = some ("measure_left_of_bit", 3) ∧ NotRefined wF11 :=
-  ⟨Tk.wF11_violation, Tk.wF11_not_refined⟩
-
 /-- `Ket(1) >> Measure() >> Bits(0) @ Id(bit)`. -/
 theorem bits_left_of_bit_not_refined :
     wBits.firstViolation = some ("bits_left_of_bit", 3) ∧ NotRefined wBits :=
@@ -78,22 +77,15 @@ theorem discard_bit_not_refined :
     wDiscard.firstViolation = some ("discard_bit", 3) ∧ NotRefined wDiscard :=
   ⟨Tk.wDiscard_violation, Tk.wDiscard_not_refined⟩
 
-/-- `Ket(1, 0) >> Id(1) @ Bits(0) @ Id(1) >> Measure(1, override_bits=True) @ Id(1) >> Id(bit) @ X
-      >> Id(bit) @ Measure()`. -/
-theorem override_destructive_not_refined :
-    wOverride.firstViolation = some ("override_destructive", 3) ∧ NotRefined wOverride :=
-  ⟨Tk.wOverride_violation, Tk.wOverride_not_refined⟩
-
-/-- `Ket(0, 1, 0) >> Bra(0) @ Id(2) >> Measure() @ Id(1) >> Id(bit) @ Measure() >> Swap(bit, bit)`. -/
-theorem bit_swap_moves_ps_not_refined :
-    wSwapPs.firstViolation = some ("bit_swap_moves_ps", 5) ∧ NotRefined wSwapPs :=
-  ⟨Tk.wSwapPs_violation, Tk.wSwapPs_not_refined⟩
-
-/-- `Ket(1) >> Measure() >> Bits(1)[::-1] >> Ket(1) >> Measure()`: the export raises. -/
+/-- `Bits(0) >> FAN >> Id(bit @ bit) @ Bits(0)`: the export raises (IndexError). -/
 theorem stale_bits_export_raises :
-    wStale.firstViolation = some ("stale_bits", 6) ∧ toTk wStale = .error .axiom ∧
-      ∃ sp, canon wStale = .ok sp :=
-  ⟨Tk.wStale_violation, Tk.wStale_toTk, Tk.wStale_canon⟩
+    toTk wStale = .error .index ∧ ∃ sp, canon wStale = .ok sp :=
+  ⟨Tk.wStale_toTk, Tk.wStale_canon⟩
+
+/-- `Ket(1, 0) >> Measure(2) >> XOR >> Id(bit) @ Bits(0)`: the classical gate reads the wrong register. -/
+theorem stale_bits_not_refined :
+    wStaleOrder.firstViolation = some ("stale_bits", 4) ∧ NotRefined wStaleOrder :=
+  ⟨Tk.wStaleOrder_violation, Tk.wStaleOrder_not_refined⟩
 
 /-- Override after classical post-processing: exported, but the specification has no register
     for the wire that is overwritten. -/
@@ -104,16 +96,12 @@ theorem override_after_pp_unspecified :
 
 /-! ### from_tk.make_units_adjacent (Model/TkFrom.lean): a bounded statement only -/
 
-/-- `tk.Circuit(4).CX(0, 3)`: after the swaps the positions 0, 1 hold the units 0, 2. -/
-theorem from_tk_adjacent_fails :
-    adjacentOK 4 [0, 3] = false ∧ arrangement 4 (makeUnitsAdjacent [0, 3]).2 = [0, 2, 3, 1] := by decide
-
-/-- On up to 6 wires the swaps bring a two-unit gate's units to consecutive positions exactly when
-    the second unit is not 3 or more to the right of the first (tk.py:300-304 rotates the wrong
-    way).  The general statement for every width is not proved. -/
+/-- On up to 6 wires the swaps bring the units of every two-unit gate to consecutive positions at
+    the returned offset (30 ordered pairs; e.g. `CX(0, 3)` on 4 wires: arrangement 0, 3, 1, 2).
+    The general statement for every width is not proved. -/
 theorem from_tk_adjacent_upto6 :
-    pairsWhere 6 false = [(0, 3), (0, 4), (0, 5), (1, 4), (1, 5), (2, 5)] ∧
-      (pairsWhere 6 true).length = 24 := by decide
+    pairsWhere 6 false = [] ∧ (pairsWhere 6 true).length = 30 ∧
+      arrangement 4 (makeUnitsAdjacent [0, 3]).2 = [0, 3, 1, 2] := by decide
 
 /-! ### the hypotheses are met by non-trivial circuits -/
 
@@ -141,5 +129,23 @@ example : ∃ sp ρq ρb dreg, canon ex1 = .ok sp ∧ Refines sp ⟨3, 3, [], [0
 def ex2 : Circ := ⟨[.q, .b], [(.gate "H" 1, 0), (.measure 1 false true, 0)]⟩
 
 example : ex2.clean = true ∧ isOk (toTk ex2) = true := by decide
+
+/-- The circuits that were counter-witnesses before the fix commits are inside the fragment now:
+    F11 `Ket(1, 0) >> Id(1) @ Measure() >> Measure() @ Id(bit)` (the post-processing swaps),
+    F26 `Ket(1, 0) >> Id(1) @ Bits(0) @ Id(1) >> Measure(1, override_bits=True) @ Id(1) >> Id(bit) @ X
+         >> Id(bit) @ Measure()` (X and Measure on unit 1),
+    F28 `Ket(0, 1, 0) >> Bra(0) @ Id(2) >> Measure() @ Id(1) >> Id(bit) @ Measure() >> Swap(bit, bit)`
+        (post-selection stays on bit 0). -/
+def exF11 : Circ := ⟨[], [(.ket [1, 0], 0), (.measure 1 true false, 1), (.measure 1 true false, 0)]⟩
+def exF26 : Circ := ⟨[], [(.ket [1, 0], 0), (.bits [0] false, 1), (.measure 1 true true, 0),
+  (.gate "X" 1, 1), (.measure 1 true false, 1)]⟩
+def exF28 : Circ := ⟨[], [(.ket [0, 1, 0], 0), (.bra [0], 0), (.measure 1 true false, 0),
+  (.measure 1 true false, 1), (.swap .b .b, 0)]⟩
+
+example : exF11.clean = true ∧ (toTk exF11).toOption.map (·.pp) = some ⟨2, 2, [(.swap, 0)]⟩ := by decide
+example : exF26.clean = true ∧ (toTk exF26).toOption.map (·.cmds) =
+    some [⟨"X", none, [0], []⟩, ⟨"Measure", none, [0], [0]⟩, ⟨"X", none, [1], []⟩,
+          ⟨"Measure", none, [1], [1]⟩] := by decide
+example : exF28.clean = true ∧ (toTk exF28).toOption.map (·.ps) = some [(0, 0)] := by decide
 
 end DV.C13
